@@ -311,3 +311,251 @@ Proof.
   replace (mt =? 0) with false by lia. replace (mt =? 1) with false by lia.
   replace (mt =? 7) with false by lia. replace (mt =? 6) with false by lia. reflexivity.
 Qed.
+
+(* ---- CFList marshalling ---- *)
+Definition le3 (f : N) : list N := le_bytes 3 (f / 100).
+
+Lemma chans_fold chs : forall acc, forallb freq_ok chs = true ->
+  fold_left (fun acc f =>
+               do out <- acc;
+               if negb (f mod 100 =? 0) then Err else
+               if 16777215 <? f / 100 then Err else
+               Ok (out ++ firstn 3 (le_bytes 4 (f / 100)))) chs (Ok acc)
+  = Ok (acc ++ concat (map le3 chs)).
+Proof.
+  induction chs as [|f r IH]; intros acc H.
+  - cbn [fold_left map concat]. now rewrite app_nil_r.
+  - cbn [forallb] in H. apply andb_true_iff in H as [Hf Hr]. unfold freq_ok in Hf.
+    apply andb_true_iff in Hf as [Hm Hd]. cbn [fold_left bind]. rewrite Hm. cbn [negb].
+    replace (16777215 <? f / 100) with false by (change (2 ^ 24) with 16777216 in Hd; lia).
+    change (firstn 3 (le_bytes 4 (f / 100))) with (freq3 (f / 100)). rewrite freq3_le.
+    rewrite (IH _ Hr). cbn [map concat]. now rewrite <- app_assoc.
+Qed.
+
+Lemma concat_le3_length chs : length (concat (map le3 chs)) = (3 * length chs)%nat.
+Proof.
+  induction chs as [|f r IH]; [reflexivity|]. cbn [map concat length]. rewrite app_length, IH.
+  unfold le3. rewrite le_bytes_length. lia.
+Qed.
+
+Lemma cflist_marshal_chans chs ty : length chs = 5%nat -> forallb freq_ok chs = true ->
+  cflist_marshal (mkCFList (CFPChannels chs) ty) = Ok (concat (map le3 chs) ++ [ty mod 256]).
+Proof.
+  intros L H. unfold cflist_marshal, cfpayload_marshal. cbn [cf_payload cf_type].
+  rewrite (chans_fold chs [] H). cbn [bind app]. cbv zeta.
+  rewrite (take_app_n 15 (concat (map le3 chs))) by (rewrite concat_le3_length; lia). reflexivity.
+Qed.
+
+Lemma concat_masks_length ms : length (concat (map chmask_bytes ms)) = (2 * length ms)%nat.
+Proof.
+  induction ms as [|m r IH]; [reflexivity|]. cbn [map concat length]. rewrite app_length, IH.
+  unfold chmask_bytes, enc_chmask. rewrite le_bytes_length. lia.
+Qed.
+
+Lemma take_pad (b : list N) n m : (length b <= n)%nat -> (n <= length b + m)%nat ->
+  firstn n (b ++ repeat 0 m) = b ++ repeat 0 (n - length b).
+Proof.
+  intros H1 H2. replace m with ((n - length b) + (m - (n - length b)))%nat by lia.
+  rewrite repeat_app, app_assoc. apply take_app_n. rewrite app_length, repeat_length. lia.
+Qed.
+
+Lemma cflist_marshal_masks ms ty : (length ms <= 6)%nat ->
+  cflist_marshal (mkCFList (CFPMasks ms) ty)
+  = Ok ((concat (map chmask_bytes ms) ++ repeat 0 (15 - 2 * length ms)) ++ [ty mod 256]).
+Proof.
+  intros L. unfold cflist_marshal, cfpayload_marshal. cbn [cf_payload cf_type].
+  replace (6 <? length ms)%nat with false by (symmetry; apply Nat.ltb_ge; exact L). cbn [bind]. cbv zeta.
+  rewrite take_pad by (rewrite concat_masks_length; lia). now rewrite concat_masks_length.
+Qed.
+
+Lemma Forall_byte_concat (f : N -> list N) l : (forall x, Forall byte (f x)) -> Forall byte (concat (map f l)).
+Proof. intros H. induction l; cbn [map concat]; [constructor|]. apply Forall_app. now split. Qed.
+
+Lemma Forall_byte_concat' {A} (f : A -> list N) l : (forall x, Forall byte (f x)) -> Forall byte (concat (map f l)).
+Proof. intros H. induction l; cbn [map concat]; [constructor|]. apply Forall_app. now split. Qed.
+
+Lemma Forall_byte_zeros n : Forall byte (repeat 0 n).
+Proof. induction n; cbn [repeat]; constructor; [reflexivity|assumption]. Qed.
+
+(* a valid CFList marshals to 16 bytes *)
+Lemma cflist_marshal_ok l : cfpayload_valid (cf_payload l) (cf_type l) = true ->
+  exists cf, cflist_marshal l = Ok cf /\ Forall byte cf /\ length cf = 16%nat.
+Proof.
+  destruct l as [[chs|ms|] ty]; cbn [cf_payload cf_type cfpayload_valid]; intros H; [| |discriminate].
+  - apply andb_true_iff in H as [H Ht]. apply andb_true_iff in H as [L H]. apply Nat.eqb_eq in L.
+    eexists. split; [apply (cflist_marshal_chans chs ty L H)|]. split.
+    + apply Forall_app. split; [apply Forall_byte_concat; intros x; apply le_bytes_ok|].
+      constructor; [unfold byte; lia|constructor].
+    + rewrite app_length, concat_le3_length, L. reflexivity.
+  - apply andb_true_iff in H as [H Ht]. apply andb_true_iff in H as [L H]. apply Nat.leb_le in L.
+    eexists. split; [apply (cflist_marshal_masks ms ty L)|]. split.
+    + apply Forall_app. split; [apply Forall_app; split|].
+      * apply Forall_byte_concat'. intros x. apply le_bytes_ok.
+      * apply Forall_byte_zeros.
+      * constructor; [unfold byte; lia|constructor].
+    + rewrite !app_length, concat_masks_length, repeat_length. cbn [length]. lia.
+Qed.
+
+(* ---- join-accept payload marshalling ---- *)
+Lemma dlsettings_codec o rx2 rx1 : rx2 < 16 -> rx1 < 8 ->
+  exists dl, enc_dlsettings o rx2 rx1 = Ok dl /\ dl < 256 /\ dec_dlsettings dl = (o, rx2, rx1).
+Proof.
+  intros H2 H1.
+  assert (S : forallb (fun a => forallb (fun b =>
+              match enc_dlsettings o a b with
+              | Ok dl => let '(o', a', b') := dec_dlsettings dl in (dl <? 256) && Bool.eqb o' o && (a' =? a) && (b' =? b)
+              | _ => false end) (range 8)) (range 16) = true) by (destruct o; vm_compute; reflexivity).
+  pose proof (sweep2 16 8 _ S rx2 rx1 H2 H1) as H. cbn beta in H.
+  destruct (enc_dlsettings o rx2 rx1) as [dl| | |]; try discriminate.
+  exists dl. split; [reflexivity|]. destruct (dec_dlsettings dl) as [[o' a'] b'].
+  apply andb_true_iff in H as [H Hb]. apply andb_true_iff in H as [H Ha]. apply andb_true_iff in H as [Hd Ho].
+  apply eqb_prop in Ho. apply N.eqb_eq in Ha, Hb. subst. split; [lia|reflexivity].
+Qed.
+
+Lemma ja_marshal_shape jn nid da o rx2 rx1 rxd cfl dl cf :
+  jn < 16777216 -> rxd < 16 -> enc_dlsettings o rx2 rx1 = Ok dl ->
+  match cfl with None => Ok [] | Some l => cflist_marshal l end = Ok cf ->
+  payload_marshal (PLJoinAccept jn nid da o rx2 rx1 rxd cfl)
+  = Ok (le_bytes 3 jn ++ rev nid ++ rev da ++ [dl; rxd] ++ cf).
+Proof.
+  intros Hj Hr Hd Hc. cbn [payload_marshal].
+  replace (15 <? rxd) with false by lia. replace (16777216 <=? jn) with false by lia.
+  rewrite Hd. cbn [bind]. rewrite Hc. cbn [bind].
+  change (firstn 3 (le_bytes 4 jn)) with (freq3 jn). now rewrite freq3_le.
+Qed.
+
+Lemma ja_valid_marshal jn nid da o rx2 rx1 rxd cfl :
+  jn < 16777216 -> rx2 < 16 -> rx1 < 8 -> rxd < 16 ->
+  match cfl with None => true | Some l => cfpayload_valid (cf_payload l) (cf_type l) end = true ->
+  exists dl cf, enc_dlsettings o rx2 rx1 = Ok dl /\ dl < 256 /\ dec_dlsettings dl = (o, rx2, rx1) /\
+    match cfl with None => Ok [] | Some l => cflist_marshal l end = Ok cf /\ Forall byte cf /\
+    match cfl with None => cf = [] | Some _ => length cf = 16%nat end /\
+    payload_marshal (PLJoinAccept jn nid da o rx2 rx1 rxd cfl)
+    = Ok (le_bytes 3 jn ++ rev nid ++ rev da ++ [dl; rxd] ++ cf).
+Proof.
+  intros Hj H2 H1 Hr Hc. destruct (dlsettings_codec o rx2 rx1 H2 H1) as (dl & Hd & Bd & Hdec).
+  assert (Hcf : exists cf, match cfl with None => Ok [] | Some l => cflist_marshal l end = Ok cf /\ Forall byte cf /\
+                           match cfl with None => cf = [] | Some _ => length cf = 16%nat end).
+  { destruct cfl as [l|].
+    - destruct (cflist_marshal_ok l Hc) as (cf & E & B & L). now exists cf.
+    - exists []. split; [reflexivity|]. split; [constructor|reflexivity]. }
+  destruct Hcf as (cf & E & B & L). exists dl, cf.
+  split; [exact Hd|]. split; [exact Bd|]. split; [exact Hdec|]. split; [exact E|]. split; [exact B|]. split; [exact L|].
+  now apply ja_marshal_shape.
+Qed.
+
+Theorem frame_roundtrip : forall p, spec_valid p = true ->
+  exists bs, phy_marshal p = Ok bs /\ phy_unmarshal bs = Ok (wire_view p).
+Proof.
+  intros [mt mj pl mc]. unfold spec_valid. cbn [Model.pl mtype major mic]. intros H.
+  apply andb_true_iff in H as [H Hpl]. apply andb_true_iff in H as [Hmj Hmc].
+  destruct (id_ok_inv 4 mc Hmc) as [Lmc _]. assert (Hj : mj < 4) by lia. clear Hmj Hmc.
+  unfold wire_view. cbn [Model.pl mtype major mic].
+  destruct pl as [je de dn|jn nid da o rx2 rx1 rxd cfl|ty nid de rc|ty je de rc|m|d|]; [..|discriminate Hpl].
+  - (* join-request *)
+    apply andb_true_iff in Hpl as [Hpl Hdn]. apply andb_true_iff in Hpl as [Hpl Hde]. apply andb_true_iff in Hpl as [Hmt Hje].
+    apply N.eqb_eq in Hmt. subst mt.
+    destruct (id_ok_inv 8 je Hje) as [Lje _]. destruct (id_ok_inv 8 de Hde) as [Lde _].
+    apply (phy_roundtrip_gen JoinRequest mj _ mc (rev je ++ rev de ++ le_bytes 2 dn)); try assumption;
+      [reflexivity|discriminate|reflexivity|]. apply pu_joinreq; try assumption. lia.
+  - (* join-accept: decoded as an opaque payload *)
+    apply andb_true_iff in Hpl as [Hpl Hcf]. apply andb_true_iff in Hpl as [Hpl Hrxd]. apply andb_true_iff in Hpl as [Hpl Hrx1].
+    apply andb_true_iff in Hpl as [Hpl Hrx2]. apply andb_true_iff in Hpl as [Hpl Hda]. apply andb_true_iff in Hpl as [Hpl Hnid].
+    apply andb_true_iff in Hpl as [Hmt Hjn]. apply N.eqb_eq in Hmt. subst mt.
+    destruct (ja_valid_marshal jn nid da o rx2 rx1 rxd cfl) as (dl & cf & _ & _ & _ & _ & _ & _ & Hb);
+      try (change (2 ^ 24) with 16777216 in Hjn; lia); [exact Hcf|].
+    rewrite Hb.
+    eapply (phy_roundtrip_gen JoinAccept mj _ mc); [reflexivity|exact Hj|exact Lmc|discriminate|exact Hb|reflexivity].
+  - (* rejoin-request type 0 / 2 *)
+    apply andb_true_iff in Hpl as [Hpl Hrc]. apply andb_true_iff in Hpl as [Hpl Hde]. apply andb_true_iff in Hpl as [Hpl Hnid].
+    apply andb_true_iff in Hpl as [Hmt Hty]. apply N.eqb_eq in Hmt. subst mt.
+    destruct (id_ok_inv 3 nid Hnid) as [Lnid _]. destruct (id_ok_inv 8 de Hde) as [Lde _].
+    assert (Hty' : ty = 0 \/ ty = 2) by lia.
+    apply (phy_roundtrip_gen RejoinRequest mj _ mc (ty :: rev nid ++ rev de ++ le_bytes 2 rc)); try assumption;
+      [reflexivity|discriminate| |].
+    + cbn [payload_marshal]. replace (negb (ty =? 0) && negb (ty =? 2)) with false by lia. reflexivity.
+    + cbn [app nth]. apply pu_rejoin02; try assumption. lia.
+  - (* rejoin-request type 1 *)
+    apply andb_true_iff in Hpl as [Hpl Hrc]. apply andb_true_iff in Hpl as [Hpl Hde]. apply andb_true_iff in Hpl as [Hpl Hje].
+    apply andb_true_iff in Hpl as [Hmt Hty]. apply N.eqb_eq in Hmt, Hty. subst mt ty.
+    destruct (id_ok_inv 8 je Hje) as [Lje _]. destruct (id_ok_inv 8 de Hde) as [Lde _].
+    apply (phy_roundtrip_gen RejoinRequest mj _ mc (1 :: rev je ++ rev de ++ le_bytes 2 rc)); try assumption;
+      [reflexivity|discriminate|reflexivity|].
+    cbn [app nth]. apply pu_rejoin1; try assumption. lia.
+  - (* data frames *)
+    apply andb_true_iff in Hpl as [Hmt Hm]. apply andb_true_iff in Hmt as [Hmt2 Hmt5].
+    destruct (mac_roundtrip m Hm) as (b & Hb & _ & Hu).
+    apply (phy_roundtrip_gen mt mj _ mc b); try assumption; [lia|discriminate|].
+    rewrite pu_mac by lia. rewrite Hu. reflexivity.
+  - (* proprietary *)
+    apply andb_true_iff in Hpl as [Hmt _]. apply N.eqb_eq in Hmt. subst mt.
+    apply (phy_roundtrip_gen Proprietary mj _ mc d); try assumption; [reflexivity|discriminate|reflexivity|reflexivity].
+Qed.
+
+(* ---- channel masks ---- *)
+Lemma dec_enc_chmask m : length m = 16%nat -> dec_chmask_list (chmask_bytes m) = m.
+Proof.
+  intros L. unfold dec_chmask_list, chmask_bytes, dec_chmask, enc_chmask. rewrite le_bytes_length.
+  change (Nat.eqb 2 2) with true. cbv iota zeta.
+  rewrite le_val_bytes, chmask_val_sum, N.pow_0_r, N.mul_1_r.
+  pose proof (mask_val_lt m) as Hm. rewrite L in Hm.
+  rewrite N.mod_small by exact Hm.
+  rewrite (map_ext _ (N.testbit (mask_val m)) (fun i => land_pow2_testbit (mask_val m) i)).
+  now apply mask_of_val.
+Qed.
+
+Definition nz (m : list bool) : bool := existsb (fun x => x) m.
+
+Lemma strip_nil : strip_zero_masks [] = [].
+Proof. reflexivity. Qed.
+
+Lemma strip_snoc l m : strip_zero_masks (l ++ [m]) = if nz m then l ++ [m] else strip_zero_masks l.
+Proof.
+  unfold strip_zero_masks. rewrite rev_unit. fold (nz m). destruct (nz m); [|reflexivity].
+  cbn [rev]. now rewrite rev_involutive.
+Qed.
+
+Lemma strip_nz_mid l m r : nz m = true -> strip_zero_masks (l ++ m :: r) = l ++ m :: strip_zero_masks r.
+Proof.
+  intros Hm. induction r as [|x r IH] using rev_ind.
+  - rewrite strip_snoc, Hm, strip_nil. reflexivity.
+  - change (l ++ m :: r ++ [x]) with (l ++ (m :: r) ++ [x]). rewrite app_assoc, !strip_snoc.
+    destruct (nz x); [now rewrite <- app_assoc|exact IH].
+Qed.
+
+Lemma strip_zero_cons m r : nz m = false ->
+  strip_zero_masks (m :: r) = match strip_zero_masks r with [] => [] | s => m :: s end.
+Proof.
+  intros Hm. induction r as [|x r IH] using rev_ind.
+  - change [m] with ([] ++ [m]). now rewrite strip_snoc, Hm.
+  - change (m :: r ++ [x]) with ((m :: r) ++ [x]). rewrite !strip_snoc.
+    destruct (nz x); [destruct r; reflexivity|exact IH].
+Qed.
+
+(* what masks_loop adds to acc *)
+Definition strip_tail (pending ms : list (list bool)) : list (list bool) :=
+  match strip_zero_masks ms with [] => [] | s => pending ++ s end.
+
+Lemma masks_loop_zeros j : forall fuel pending acc, masks_loop (repeat 0 (2 * j)) fuel pending acc = acc.
+Proof.
+  induction j as [|j IH]; intros [|fuel] pending acc; try reflexivity.
+  replace (2 * S j)%nat with (S (S (2 * j))) by lia. cbn [repeat masks_loop].
+  change (existsb (fun x => x) (dec_chmask_list [0; 0])) with false. cbv iota. apply IH.
+Qed.
+
+Lemma masks_loop_spec j ms : Forall (fun m => length m = 16%nat) ms ->
+  forall fuel pending acc, (length ms <= fuel)%nat ->
+  masks_loop (concat (map chmask_bytes ms) ++ repeat 0 (2 * j)) fuel pending acc = acc ++ strip_tail pending ms.
+Proof.
+  induction 1 as [|m r Hm _ IH]; intros fuel pending acc Hf.
+  - cbn [map concat app]. rewrite masks_loop_zeros. unfold strip_tail. rewrite strip_nil. now rewrite app_nil_r.
+  - destruct fuel as [|fuel]; [cbn [length] in Hf; lia|]. cbn [length] in Hf.
+    cbn [map concat]. rewrite <- app_assoc.
+    pose proof (dec_enc_chmask m Hm) as Hd. unfold chmask_bytes, enc_chmask in Hd |- *. cbn [le_bytes] in Hd |- *.
+    cbn [app masks_loop]. rewrite Hd. fold (nz m). fold chmask_bytes.
+    destruct (nz m) eqn:Enz.
+    + rewrite IH by lia. unfold strip_tail. rewrite (strip_nz_mid [] m r Enz). cbn [app].
+      rewrite <- !app_assoc. cbn [app]. destruct (strip_zero_masks r); reflexivity.
+    + rewrite IH by lia. unfold strip_tail. rewrite (strip_zero_cons m r Enz).
+      destruct (strip_zero_masks r); [reflexivity|]. now rewrite <- app_assoc.
+Qed.
